@@ -83,7 +83,7 @@ func c15Quote(s, style string) (string, bool) {
 
 var c15Modes = []interp.ExpMode{0, interp.Arith, interp.Assign, interp.Literal, interp.Pattern, interp.Quote}
 
-var c15Envs = []string{"default", "ifs", "home", "noglob-off-args"}
+var c15Envs = []string{"default", "ifs", "home", "noglob-off-args", "noglob-nounset"}
 
 func c15Env(name string) *interp.ExecEnv {
 	env := interp.NewExecEnv("sh", "*", "a", "$1")
@@ -98,6 +98,8 @@ func c15Env(name string) *interp.ExecEnv {
 	case "noglob-off-args":
 		env.Unset("IFS")
 		env.Unset("HOME")
+	case "noglob-nounset":
+		env.Opts |= interp.NoGlob | interp.NoUnset
 	}
 	return env
 }
